@@ -159,6 +159,11 @@ func gen(r *harn.Rng, tier string) interface{} {
 				d = 0
 			}
 			sc.Events = append(sc.Events, event{K: "idle", IdleNs: d})
+			if r.Bool(0.12) {
+				// the routers are stopped and started again while nothing is under way: what the NAT
+				// knows (mappings, their age, permissions) is not touched by that
+				sc.Events = append(sc.Events, event{K: "restart"})
+			}
 		}
 	}
 	return sc
@@ -668,6 +673,17 @@ func run(env *simrt.Env, sci interface{}) {
 		switch e.K {
 		case "idle":
 			env.Sleep(time.Duration(e.IdleNs))
+		case "restart":
+			settle()
+			if err := wan.Stop(); err != nil {
+				env.Infra("Stop: %v", err)
+				return
+			}
+			if err := wan.Start(); err != nil {
+				env.Infra("Start: %v", err)
+				return
+			}
+			env.Fault("routers-restarted")
 		case "out":
 			is, rs := internals[e.Int%len(internals)], remotes[e.Rem%len(remotes)]
 			dst := &net.UDPAddr{IP: rs.addr.IP, Port: rs.addr.Port}
